@@ -182,6 +182,11 @@ class MergeContract(Contract):
         out += [(n, f) for n, f in ro_inv(W, ex.H, root, 'C14+C15+RO_Inv.preserved')]
         out += [(n, f) for n, f in ownership(ex.H, 'C13.ownership_preserved')]
         out += self.frame_clauses(cx, ex)
+        out.append(('C14.messageID_unchanged', A(ex.H.find(root, W.lit('messageID')) == cx.H.find(root, W.lit('messageID')))))
+        if self.cls_name not in ('RunningOrderReplace', 'MetaDataReplace'):
+            b0, b1 = cx.H.find(root, W.lit('roCreate')), ex.H.find(root, W.lit('roCreate'))
+            out.append(('C14.running_order_element_and_its_roID_unchanged',
+                        A(b1 == b0, ex.H.find(b1, W.lit('roID')) == cx.H.find(b0, W.lit('roID')))))
         if self.cls_name != 'RunningOrderEnd':
             # refinement of the abstract merge contract: only a roDelete completes a running order
             out.append(('C07.no_spurious_completion',
